@@ -202,6 +202,30 @@ fn eval(p: &PathSpec, tol: f32, with_fill: bool) -> Result<(u64, bool, f64), Vio
         return Err(Violation::new(format!("flatten/{}", f.clause), case_str(p, tol), format!("{}\noutput: {:?}", f.detail, flat.ops)));
     }
     let has_curve = p.ops.iter().any(|o| matches!(o, POp::Q(..) | POp::C(..)));
+    // hit-testing the flattened path agrees with hit-testing the original (both flatten at `tol`; the
+    // flattening of a flattened path is itself): probes a tenth of the way from a flattening vertex
+    // towards the centroid of all vertices - for a bulging curve that is inside the bulge and beyond
+    // every end point
+    if has_curve && tol.is_finite() {
+        let vs: Vec<(f32, f32)> = flat.ops.iter().filter_map(|o| match o {
+            PathOp::LineTo(p) | PathOp::MoveTo(p) => Some((p.x, p.y)),
+            _ => None,
+        }).collect();
+        if vs.len() >= 3 {
+            let n = vs.len() as f32;
+            let (cx, cy) = (vs.iter().map(|v| v.0).sum::<f32>() / n, vs.iter().map(|v| v.1).sum::<f32>() / n);
+            for j in [vs.len() / 3, vs.len() / 2, 2 * vs.len() / 3] {
+                let (qx, qy) = (vs[j].0 + 0.1 * (cx - vs[j].0), vs[j].1 + 0.1 * (cy - vs[j].1));
+                match guard(|| (path.contains_point(tol, qx, qy), flat.contains_point(tol, qx, qy))) {
+                    Ok((a, b)) if a != b => {
+                        return Err(Violation::new("flatten/hit-test-of-the-flattening-disagrees", case_str(p, tol), format!("contains_point({:?}, {:?}, {:?}) is {} for the path and {} for its flattening", tol, qx, qy, a, b)));
+                    }
+                    Ok(_) => {}
+                    Err(e) => return Err(Violation::new("contains_point/panic", case_str(p, tol), e)),
+                }
+            }
+        }
+    }
     if with_fill {
         // filling the flattened path agrees with filling the original away from the outline
         let r = guard(|| {
@@ -437,7 +461,9 @@ impl Check for C16 {
         // (2^-24: the scaled tolerances, 6e-11 .. 6e-9, lie below the 1e-8 that the flattening
         // library itself accepts)
         // (2^-72: tolerances around 2e-25 on geometry around 1e-21)
-        for exp in [-12i32, 10, -24, -72] {
+        // (2^-100: tolerances around 1e-33 - the magnification that serves them is 2^100, whose
+        // square no longer fits an f32)
+        for exp in [-12i32, 10, -24, -72, -100] {
             let k = (2.0f32).powi(exp);
             let sc = |p: &(f32, f32)| (p.0 * k, p.1 * k);
             let pts_s: Vec<(f32, f32)> = pts4.iter().map(sc).collect();
